@@ -359,6 +359,11 @@ def _corrupt_future(plan, cut, kind, seed):
                 m[i][j] = pert(m[i][j], kk)
     cutdate = f["dates"][cut]
     for _name, fr in (p.get("extra") or {}).items():
+        if fr["kind"] == "unit_risk":
+            for _m, tab in fr["measures"].items():
+                for i in range(cut + 1, n):
+                    tab["data"][i] = [pert(x, "scale") if x is not None else None for x in tab["data"][i]]
+            continue
         if fr["kind"] not in ("frame", "series"):
             continue
         rows = fr.get("rows") or f["dates"]
@@ -400,7 +405,11 @@ class C04(Spec):
     ]
 
     def gen(self, r, tier, i):
-        plan = drive_engine.gen_all_algos_plan(r, tier, stateful=True)
+        if i % 6 == 4:
+            plan = SPECS["C20"].gen(r, tier, 4 * r.randrange(1000))  # the hedge family: UpdateRisk + HedgeRisks on unit-risk tables
+            plan["cfg"]["obs_eod"] = False
+        else:
+            plan = drive_engine.gen_all_algos_plan(r, tier, stateful=True)
         n = len(plan["feed"]["dates"])
         plan["cuts"] = [[r.randint(0, n - 2), r.choice(["scale", "redraw", "nan", "zero", "mixed"]), r.randrange(1 << 30)] for _ in range(4)]
         plan["seed"] = r.randrange(1 << 30)
@@ -521,7 +530,21 @@ class C09(Spec):
             t = r.choice(full)
             root["children"].append({"k": "X", "name": t, "cls": "Security", "mult": 1.0, "decl": "obj"})
             others.append(t)
-        mode = r.choice(["never", "late", "tiny", "steady", "flip", "withdraw"])
+        mode = r.choice(["never", "late", "tiny", "steady", "flip", "withdraw", "bankrupt_parent"])
+        if mode == "bankrupt_parent":
+            if not full or ndates < 5:
+                mode = "steady"
+            else:
+                x = full[0]
+                j = tickers.index(x)
+                if x not in others:
+                    root["children"].append({"k": "X", "name": x, "cls": "Security", "mult": 1.0, "decl": "obj"})
+                    others.append(x)
+                d = r.randint(1, ndates - 2)
+                p0 = fspec["prices"][0][j]
+                for i2 in range(ndates):
+                    fspec["prices"][i2][j] = round(p0 * (1 + 0.001 * (i2 % 3)) * (1.0 if i2 < d else r.uniform(0.25, 0.5)), 4)
+                fired["price_shock_parent"] = 1
         names = ["kid"] + others
         extra = {}
         st = [{"a": "Spy", "id": 0}]
@@ -531,6 +554,11 @@ class C09(Spec):
             st += [{"a": "RunAfterDate", "date": dates[r.randrange(len(dates))]}, {"a": "WeighSpecified", "weights": {n: round(0.95 / len(names), 4) for n in names}}, {"a": "Rebalance"}]
         elif mode == "tiny":
             st += [drive_engine.sched_spec(r, dates), {"a": "WeighSpecified", "weights": {"kid": r.choice([1e-6, 1e-4, 0.001])}}, {"a": "Rebalance"}]
+        elif mode == "bankrupt_parent":
+            ws = {n: 0.1 for n in names}
+            ws["kid"] = 0.4
+            ws[full[0]] = 2.5
+            st += [{"a": "RunOnDate", "dates": [dates[0]]}, {"a": "WeighSpecified", "weights": ws}, {"a": "Rebalance"}]
         elif mode == "steady":
             st += [drive_engine.sched_spec(r, dates), {"a": "WeighSpecified", "weights": {n: round(r.choice([0.5, 0.95, 1.0]) / len(names), 4) for n in names}}, {"a": "Rebalance"}]
         else:
